@@ -21,10 +21,8 @@ RULE = ("cases = generated flat designs (K1/K3/K5-like, T <= 8) + 1-4 continuous
         "early, late; cumulative) + 0-2 ContinuousConstraints, 2-3 sequences by RandomGen or IterateSATGen. "
         "non-trivial = >= 2 sequences returned with a dependent or windowed or constrained factor; distinct = case")
 ASSUMPTIONS = ["discrete part judged by the reference model R", "probe functions are deterministic in their arguments"]
-MINIMUMS = {"quick": {"sequences_judged": 500, "window_factors_judged": 120, "dependent_factors_judged": 120,
-                      "constraints_judged": 120, "resampled_sequences": 60},
-            "thorough": {"sequences_judged": 8000, "window_factors_judged": 1800, "dependent_factors_judged": 1800,
-                         "constraints_judged": 1800, "resampled_sequences": 900}}
+MINIMUMS = {"quick": {"sequences_judged": 500, "window_factors_judged": 120, "dependent_factors_judged": 120, "constraints_judged": 120, "resampled_sequences": 60},
+            "thorough": {"sequences_judged": 1750, "window_factors_judged": 420, "dependent_factors_judged": 420, "constraints_judged": 420, "resampled_sequences": 210}}
 CASE_TIMEOUT = 40
 
 
@@ -74,7 +72,7 @@ def gen_cspec(rng):
 
 
 def cases(tier, seed):
-    n = 4500 if tier == "thorough" else 330
+    n = 1700 if tier == "thorough" else 330
     out = []
     for i in range(n):
         rng = random.Random("c22/%s/%d" % (seed, i))
